@@ -10,6 +10,10 @@ ParamsBudget == PS(1..2, 0..1, {0, 1}, 1..2, 0..1, 0..1, {0, 1}, {0, 2, 3, 4}, {
 \* replayed into the real controller
 ParamsReplayQuick == PS({1, 3}, {0, 2}, {0, 1}, {1, 2}, {0, 2}, {0, 1}, {0, 1}, {0, 3}, {1, 9})   \* burn-ins of 2: the last burn-in epoch differs from the first
 ParamsReplayThorough == PS(1..3, {0, 1, 2}, {0, 1}, {1, 2}, {0, 2}, {0, 1}, {0, 1}, {0, 4}, {1, 9})
+\* roll-back (TrainCtlRb): design and replay
+ParamsRbDesign == PS({1, 2}, {0, 1}, {0, 1}, {1, 2}, {0}, {0}, {1}, {0, 3}, {9})
+ParamsRbDesignThorough == PS(1..3, {0, 1, 2}, {0, 1}, {1, 2}, {0, 1}, {0, 1}, {1}, {0, 3}, {9})
+ParamsRbReplay == PS({1, 2}, {0, 1}, {0, 1}, {1, 2}, {0}, {0}, {1}, {0, 3}, {9})
 L3 == {1, 2, 3}
 L4 == {1, 2, 3, 4}
 =============================================================================
